@@ -2,7 +2,8 @@
 //!
 //! One case = a small corpus of random texts over ASCII / Latin-1 / CJK / emoji alphabets (one
 //! stored text field `body`), a query built from one document's own words, a per-field
-//! highlight request (fragment size 2·|longest query word| .. 80 bytes, 1..4 fragments, tags)
+//! highlight request (fragment size around 2·|longest query word| .. 80 bytes and huge, 0 / 1 / 2 /
+//! 3..4 / very many fragments, explicit / default / empty tags)
 //! and the legacy `highlight_field` snippet in the same search.  One evaluation per hit.
 //!
 //! Finder (implementation alone), for every returned fragment and snippet: non-empty; contains
@@ -170,7 +171,7 @@ impl Prop for C21 {
     "C21"
   }
   fn rule(&self) -> &'static str {
-    "case = (3..8 documents of 2..40 words over one of four alphabets: ASCII | ASCII+Latin-1 | ASCII+CJK | all incl. emoji, optionally led by a long multi-byte run; query = 1..2 distinct words of one document as query string / term / bool-should, or (1 in 5) a two-word phrase of adjacent words as bool{must phrase, should term}; highlight on `body` with fragment_size in [2*max query word bytes, 80], number_of_fragments 1..4, tags <em> | [[ ]] | default; highlight_field snippet in the same request); one evaluation per hit; non-trivial when a fragment or snippet was returned for the hit and the first window does not cover the whole text; distinct = distinct (case, hit id) JSON"
+    "case = (3..8 documents of 2..40 words over one of four alphabets: ASCII | ASCII+Latin-1 | ASCII+CJK | all incl. emoji, optionally led by a long multi-byte run; query = 1..2 distinct words of one document as query string / term / bool-should, or (1 in 5) a two-word phrase of adjacent words as bool{must phrase, should term}; highlight on `body` with fragment_size = 2*|longest query text| -1 / exactly / +1 / anywhere up to 80 / >= 1000, number_of_fragments 0 | 1 | 2 | 3..4 | 50..1049, tags <em> | [[ ]] | default | both empty; highlight_field snippet in the same request); one evaluation per hit; non-trivial when a fragment or snippet was returned for the hit and the first window does not cover the whole text; distinct = distinct (case, hit id) JSON"
   }
   fn count(&self, tier: Tier) -> usize {
     tier.pick(1500, 60000)
@@ -206,15 +207,28 @@ impl Prop for C21 {
       maxlen = seq[k].len() + seq[k + 1].len() + 3;
     }
     let lo = 2 * maxlen;
-    let size = match rng.below(4) {
-      0 => lo,
-      1 => lo + 1,
+    // fragment_size: at and around the premise's boundary 2*|match| (one below = premise false,
+    // exactly, one above), anywhere up to 80, and far larger than any text
+    let size = match rng.below(8) {
+      0 | 1 => lo,
+      2 => lo + 1,
+      3 => lo.saturating_sub(1),
+      4 => 1000 + rng.below(100000),
       _ => lo + rng.below(81usize.saturating_sub(lo).max(1)),
     };
-    let nfrag = 1 + rng.below(4);
-    let tags = match rng.below(3) {
+    // number_of_fragments: the boundary values 0, 1, 2 and large counts next to 3..4
+    let nfrag = match rng.below(10) {
+      0 | 1 => 0,
+      2 | 3 => 1,
+      4 | 5 => 2,
+      6 => 50 + rng.below(1000),
+      _ => 3 + rng.below(2),
+    };
+    // tags: explicit, bracket-like, default (absent), and both empty
+    let tags = match rng.below(4) {
       0 => json!(["<em>", "</em>"]),
       1 => json!(["[[", "]]"]),
+      2 => json!(["", ""]),
       _ => Value::Null,
     };
     json!({"docs": docs, "words": qw, "phrase": phrase, "qkind": qkind, "size": size, "nfrag": nfrag, "tags": tags})
@@ -340,7 +354,13 @@ impl Prop for C21 {
           items.push(Frag { what: "snippet", s: sn, size: 120, pre: "**", post: "**", k: 0 });
         }
       }
-      if premise_f && frags.len() > nfrag {
+      // "at most number_of_fragments fragments per field" — for every count, 0 included, and
+      // independent of the size premise
+      if pre.is_empty() && post.is_empty() {
+        s.count("tags_empty");
+      }
+      s.count(match nfrag { 0 => "nfrag_0", 1 => "nfrag_1", 2 => "nfrag_2", 3..=4 => "nfrag_3_4", _ => "nfrag_large" });
+      if frags.len() > nfrag {
         s.fail("highlight.too-many-fragments", "more than number_of_fragments fragments returned for the field", &sub, json!({"fragments": frags, "number_of_fragments": nfrag}));
       }
       for it in items.iter() {
@@ -358,10 +378,17 @@ impl Prop for C21 {
         // `pre X post` with non-empty X (for the snippet pre == post == "**"), and X is, as a
         // whole, a match of the query's terms/phrases
         let re_it = if it.what == "snippet" { re_snip.as_ref() } else { re_field.as_ref() };
-        let tagged_x: Option<&str> = it.s.find(it.pre).and_then(|p| {
-          let rest = &it.s[p + it.pre.len()..];
-          rest.find(it.post).map(|q| &rest[..q])
-        });
+        // with both tags empty the tagging is invisible: the clause becomes "the fragment
+        // contains a match of the query" and X is that match
+        let no_tags = it.pre.is_empty() && it.post.is_empty();
+        let tagged_x: Option<&str> = if no_tags {
+          re_it.and_then(|re| re.find(it.s)).map(|m| m.as_str())
+        } else {
+          it.s.find(it.pre).and_then(|p| {
+            let rest = &it.s[p + it.pre.len()..];
+            rest.find(it.post).map(|q| &rest[..q])
+          })
+        };
         let tagged = tagged_x.map(|x| !x.is_empty()).unwrap_or(false);
         if tagged {
           let x = tagged_x.unwrap_or("");
@@ -373,7 +400,7 @@ impl Prop for C21 {
         if !tagged {
           bad.push("no-tagged-match");
         }
-        let untagged = if it.pre == it.post { it.s.replace(it.pre, "") } else { it.s.replace(it.pre, "").replace(it.post, "") };
+        let untagged = if no_tags { it.s.to_string() } else if it.pre == it.post { it.s.replace(it.pre, "") } else { it.s.replace(it.pre, "").replace(it.post, "") };
         if !text.contains(&untagged) {
           bad.push("not-substring");
         }
